@@ -147,6 +147,9 @@ fn call_merge_result_never_lost_body(a: Sel, b: Sel) {
         if !is_request(a) {
             kani::assert(eq_mk(merged, a), "C05/C09/C12: previous state kept as is (generation included)");
             kani::assert(!matches!(scheme, PreparationScheme::Current), "C05: value source is previous or both");
+            // the scheme decides which position maps are filled: a result present in BOTH data must be findable
+            // from its current-data position too (fold lore of current data is looked up through it)
+            kani::assert(matches!(scheme, PreparationScheme::Both) == !is_request(b), "C13/C09: results on both sides are mapped to both data, a result over a request to previous only");
         }
     }
     kani::cover!(r.is_ok() && !is_request(b), "merged with a current result");
